@@ -294,21 +294,48 @@ Definition rows_bad (c : lcase) : bool :=
 (** brackets: there is an epoch E, not before the launch and not after the
     first cleanup started, such that for every action the recorded interval
     [E + start, E + start + duration] contains the interval the command itself
-    experienced.  The CSV prints 4 decimals: 50 us of rounding on each number. *)
+    experienced, and ends before the next action of the same line started by
+    its own clock and before the final cleanup started (the prompter takes
+    actEnd before it goes on).  The CSV prints 4 decimals: 50 us of rounding
+    on each number. *)
 Definition tol : Z := 100000.
 
-Definition brackets_bad (c : lcase) : bool :=
+Definition csv_of (cn : list (crow * N)) (k : key) (n : N) : option crow :=
+  match find (fun cn => key_eqb (cr_actor (fst cn), cr_action (fst cn)) k && (snd cn =? n)%N) cn with
+  | Some (cr, _) => Some cr
+  | None => None
+  end.
+
+(** upper bounds of E from consecutive steps of a line *)
+Fixpoint succ_hi (led : list lrow) (cn : list (crow * N)) (sk : list (ev * N)) (hi : Z) : Z :=
+  match sk with
+  | en1 :: ((en2 :: _) as tl) =>
+      let e1 := fst en1 in let e2 := fst en2 in
+      let hi' :=
+        if Nat.eqb (e_act e1) (e_act e2) && Nat.eqb (e_scene e1) (e_scene e2) && Nat.eqb (e_line e1) (e_line e2)
+        then match csv_of cn (e_actor e1, e_action e1) (snd en1), obs_of led en2 with
+             | Some cr, Some (cs2, _) => Z.min hi (cs2 - cr_start cr - cr_dur cr + tol)
+             | _, _ => hi
+             end
+        else hi in
+      succ_hi led cn tl hi'
+  | _ => hi
+  end.
+
+Definition brackets_bad (c : lcase) (sk : list (ev * N)) : bool :=
   let cn := csv_numbered c in
   let hi0 := fold_left (fun m r => if (cl_n r =? 1)%N then Z.min m (cl_start r) else m) (lc_cleanups c) (lc_exit_t c) in
+  let cl2 := fold_left (fun m r => if (cl_n r =? 2)%N then Z.min m (cl_start r) else m) (lc_cleanups c) (lc_exit_t c) in
   let '(lo, hi) :=
     fold_left (fun lh r =>
       let '(lo, hi) := lh in
       if lr_end r <? 0 then lh else
-      match find (fun cn => key_eqb (cr_actor (fst cn), cr_action (fst cn)) (lr_actor r, lr_action r) && (snd cn =? lr_n r)%N) cn with
-      | Some (cr, _) => (Z.max lo (lr_end r - cr_start cr - cr_dur cr - tol), Z.min hi (lr_start r - cr_start cr + tol))
+      match csv_of cn (lr_actor r, lr_action r) (lr_n r) with
+      | Some cr => (Z.max lo (lr_end r - cr_start cr - cr_dur cr - tol),
+                    Z.min (Z.min hi (lr_start r - cr_start cr + tol)) (cl2 - cr_start cr - cr_dur cr + tol))
       | None => lh
       end) (lc_ledger c) (lc_launch c - tol, hi0 + tol) in
-  hi <? lo.
+  succ_hi (lc_ledger c) cn sk hi <? lo.
 
 (** All of it.  Bit mask so that the driver can tell what failed:
     1 line order, 2 barrier / act order, 4 tempo, 8 rows, 16 brackets,
@@ -329,7 +356,7 @@ Definition c04_oracle_mask (c : lcase) : N :=
      (N.add (bit (barrier_bad led sk O O (t_begin c) (t_begin c)) 2%N)
      (N.add (bit (tempo_bad led sk (act_bounds led sk acts O (t_begin c))) 4%N)
      (N.add (bit (rows_bad c) 8%N)
-     (N.add (bit (brackets_bad c) 16%N) (bit incomplete 32%N)))))
+     (N.add (bit (brackets_bad c sk) 16%N) (bit incomplete 32%N)))))
   end.
 
 Definition c04_oracle_bad (c : lcase) : bool := negb (c04_oracle_mask c =? 0)%N.
